@@ -10,7 +10,7 @@ import itertools
 import re
 
 from verif import core
-from verif.tree import walk, show, stmt_list, meth, strip
+from verif.tree import decast, walk, show, stmt_list, meth, strip
 
 LEVEL = "other"
 A = "opm/input/eclipse/Schedule/Action/"
@@ -148,6 +148,112 @@ def run(chk):
     chk.instance(r_guard, "parse", sample=dict(entry=top, trailing_rejected=bool(endchk), error_rejected=bool(errchk)))
     if top != ["parse_or"] or not endchk or not errchk:
         chk.violation(r_guard, "parse", "Parser::parse must start at parse_or, throw on an error node and throw on trailing tokens", pp["file"], pp["l"])
+
+    # ---- C18.parse: token tests, error propagation, consumption and operand order inside the recursive-descent functions
+    r_prs = chk.rule("C18.parse", "inside the condition parser: (a) the result of every sub-parser is tested with `.type == error` (returning an error node) before it is used; (b) parse_and / parse_or open their node when the current token IS their operator, add the first operand before the loop and the operand parsed in each iteration inside it, consuming the operator first; (c) '(' is tested with ==, consumed before the inner parse_or, ')' is required with != and consumed; (d) a left-hand side must be an expression (else throw), a right-hand side is a number (converted with strtod, token consumed) or else must be an expression; argument lists take expressions and numbers and advance by one token per argument", floor=14)
+
+    def tests(cond):
+        """[(op, token)] of the comparisons `<x>.type ==/!= TokenType::<token>` in cond"""
+        out = []
+        for x in walk(cond):
+            if x["k"] == "Bin" and x.get("op") in ("==", "!="):
+                for y in x["c"]:
+                    y = strip(y)
+                    if y.get("k") == "Ref" and y.get("d") == "Enum" and "TokenType::" in (y.get("q") or ""):
+                        out.append((x["op"], y["n"]))
+        return out
+
+    def returns_error(body):
+        return any(r_["k"] == "Return" and "error" in tokens(r_.get("e") or {}) for r_ in walk(body))
+    for name in LEVELS:
+        fn = P[name]
+        stl = stmt_list(fn["body"])
+        subs = {}
+        for n in walk(fn["body"]):
+            if n["k"] == "Decl":
+                for v in n["vars"]:
+                    if isinstance(v.get("init"), dict) and mcalls(v["init"], set(LEVELS + LEAVES)):
+                        subs[v["n"]] = (mcalls(v["init"], set(LEVELS + LEAVES))[0]["m"], n)
+        for var, (callee, decl) in sorted(subs.items()):
+            chks = [n for n in walk(fn["body"]) if n["k"] == "If" and tests(n["cond"]) == [("==", "error")] and any(x["k"] == "Ref" and x["n"] == var for x in walk(n["cond"])) and returns_error(n["then"])]
+            in_ret = {id(y) for r_ in walk(fn["body"]) if r_["k"] == "Return" and r_.get("e") is not None for y in walk(r_["e"])}
+            uses = [x["l"] for x in walk(fn["body"]) if x["k"] == "Ref" and x["n"] == var and x["l"] > decl["l"] and id(x) not in in_ret and not any(x is y for c_ in chks for y in walk(c_["cond"]))]
+            key = "%s:%s<-%s" % (name, var, callee)
+            # handing the result back unchanged propagates an error node to the caller's own test
+            ok = (len(chks) == 1 and (not uses or min(uses) > chks[0]["l"])) or (not chks and not uses)
+            chk.instance(r_prs, key, sample=dict(function=name, result=var, of=callee, error_test=len(chks)))
+            if not ok:
+                chk.violation(r_prs, key, "%s uses the result of %s (`%s`) without first testing `%s.type == TokenType::error` and returning an error node: a malformed sub-expression is taken for a valid operand" % (name, callee, var, var), fn["file"], decl["l"])
+    for name, tok, sub in (("parse_and", "op_and", "parse_cmp"), ("parse_or", "op_or", None)):
+        fn = P[name]
+        opens = [n for n in stmt_list(fn["body"]) if n["k"] == "If" and tok in tokens(n["cond"])]
+        ok = False
+        det = {}
+        if len(opens) == 1:
+            iff = opens[0]
+            th = stmt_list(iff["then"])
+            wl = [n for n in th if n["k"] == "While"]
+            pre_adds = [c_ for st in th if st["k"] != "While" for c_ in mcalls(st, {"add_child"})]
+            first_var = [v["n"] for st in stmt_list(fn["body"]) if st["k"] == "Decl" for v in st["vars"] if isinstance(v.get("init"), dict) and mcalls(v["init"], set(LEVELS))][:1]
+            det = dict(open_test=tests(iff["cond"]), first_operand_added=[show(c_["a"][0])[:40] for c_ in pre_adds])
+            if len(wl) == 1 and tests(iff["cond"]) == [("==", tok)] and tests(wl[0]["cond"]) == [("==", tok)] and len(pre_adds) == 1 and first_var and first_var[0] in show(pre_adds[0]["a"][0]):
+                wb = stmt_list(wl[0]["body"])
+                nxt = [i for i, st in enumerate(wb) if mcalls(st, {"next"}) and st["k"] == "MCall"]
+                par = [i for i, st in enumerate(wb) if st["k"] == "Decl" and mcalls(st, set(LEVELS))]
+                add = [i for i, st in enumerate(wb) if st["k"] == "MCall" and st.get("m") == "add_child"]
+                pv = [v["n"] for i in par for v in wb[i]["vars"]]
+                det.update(loop=dict(next=nxt, parse=par, add=add))
+                ok = len(nxt) == 1 and len(par) == 1 and len(add) == 1 and nxt[0] < par[0] < add[0] and pv and pv[0] in show(wb[add[0]]["a"][0]) \
+                    and any(r_["k"] == "Return" and show(strip(r_.get("e") or {})) not in ("",) for r_ in th if r_["k"] == "Return")
+        chk.instance(r_prs, name + ":node", sample=det)
+        if not ok:
+            chk.violation(r_prs, name + ":node", "%s must open its node when the current token is %s (tested with ==), add the first operand, and in every loop iteration consume the operator, parse the next operand, and add it (%s): operands would be dropped, duplicated or attached to the wrong operator" % (name, tok, det), fn["file"], fn["l"])
+    # parentheses
+    pc = P["parse_cmp"]
+    par_if = [n for n in stmt_list(pc["body"]) if n["k"] == "If" and "open_paren" in tokens(n["cond"])]
+    okp2 = False
+    if len(par_if) == 1:
+        th = stmt_list(par_if[0]["then"])
+        seq = []
+        for st in th:
+            if st["k"] == "MCall" and st.get("m") == "next":
+                seq.append("next")
+            elif st["k"] == "Decl" and mcalls(st, {"parse_or"}):
+                seq.append("parse_or")
+            elif st["k"] == "If" and "close_paren" in tokens(st["cond"]):
+                seq.append("close%s%s" % (tests(st["cond"])[0][0], ":err" if returns_error(st["then"]) else ""))
+            elif st["k"] == "Return":
+                seq.append("return")
+        okp2 = tests(par_if[0]["cond"]) == [("==", "open_paren")] and seq == ["next", "parse_or", "close!=:err", "next", "return"]
+        chk.instance(r_prs, "parse_cmp:paren", sample=dict(test=tests(par_if[0]["cond"]), sequence=seq))
+    if not okp2:
+        chk.violation(r_prs, "parse_cmp:paren", "parse_cmp must, on '(' (tested with ==): consume it, parse an OR-expression, require ')' (error unless it is there), consume it and return the inner expression", pc["file"], pc["l"])
+    # leaves
+    pl_, pr_ = P["parse_left"], P["parse_right"]
+    lt = [n for n in stmt_list(pl_["body"]) if n["k"] == "If" and tokens(n["cond"])]
+    okl = bool(lt) and tests(lt[0]["cond"]) == [("!=", "ecl_expr")] and any(x["k"] == "Throw" for x in walk(lt[0]["then"]))
+    chk.instance(r_prs, "parse_left:expr", sample=dict(test=tests(lt[0]["cond"]) if lt else None))
+    if not okl:
+        chk.violation(r_prs, "parse_left:expr", "parse_left must throw unless the current token is an expression (type != ecl_expr -> throw)", pl_["file"], pl_["l"])
+    rt = [n for n in stmt_list(pr_["body"]) if n["k"] == "If" and tokens(n["cond"])]
+    okr2 = len(rt) >= 2 and tests(rt[0]["cond"]) == [("==", "number")] and mcalls(rt[0]["then"], {"next"}) and any("strtod" in show(r_) or "stod" in show(r_) for r_ in walk(rt[0]["then"]) if r_["k"] == "Return") \
+        and tests(rt[1]["cond"]) == [("!=", "ecl_expr")] and returns_error(rt[1]["then"])
+    chk.instance(r_prs, "parse_right:kinds", sample=dict(tests=[tests(n["cond"]) for n in rt]))
+    if not okr2:
+        chk.violation(r_prs, "parse_right:kinds", "parse_right must take a number (consume it, convert it) and otherwise require an expression (error node unless the token is one)", pr_["file"], pr_["l"])
+    for fn in (pl_, pr_):
+        wl = [n for n in walk(fn["body"]) if n["k"] == "While"]
+        key = fn["n"] + ":args"
+        ok = False
+        if len(wl) == 1:
+            c = strip(wl[0]["cond"])
+            wb = stmt_list(wl[0]["body"])
+            ok = sorted(tests(c)) == [("==", "ecl_expr"), ("==", "number")] and c.get("k") == "Bin" and c.get("op") == "||" and len(wb) == 2 \
+                and wb[0]["k"] == "MCall" and wb[0].get("m") == "push_back" and "value" in show(wb[0]["a"][0]) \
+                and wb[1]["k"] in ("Bin", "OpCall") and len(mcalls(wb[1], {"next"})) == 1
+        chk.instance(r_prs, key, sample=dict(loop=show(wl[0]["cond"])[:100] if wl else None, ok=ok))
+        if not ok:
+            chk.violation(r_prs, key, "%s must collect arguments while the token is an expression OR a number, storing the token's text and advancing by one token per argument" % fn["n"], fn["file"], fn["l"])
 
     # ---- C18.pair
     r_pair = chk.rule("C18.pair", "token <-> operator pairing: scalarComparisonHolds, isComparisonOperator, the tokenizer and tokenString", floor=23)
@@ -378,9 +484,59 @@ def run(chk):
                     chk.violation(r_gate, key + ":pending", "%s applies an ACTIONX that was not drawn from Actions::pending (max_run/min_wait/start not honoured)" % f["q"], f["file"], c["l"])
                 if not recorded:
                     chk.violation(r_gate, key + ":record", "%s applies pending ACTIONX objects but never records the run with State::add_run: max_run and min_wait cannot take effect" % f["q"], f["file"], c["l"])
+    ec = fx.fn1("Opm::Action::ASTNode::evalComparison")
+    # ---- C18.eval: how a condition tree is evaluated
+    r_evl = chk.rule("C18.eval", "ASTNode::eval sends exactly the op_or and op_and nodes to the logical fold and every other inner node to the comparison; the fold applies the selected set operation to the evaluation of EVERY child, starting from the neutral result, and returns it; a comparison compares the value of the first child (left-hand side) with the value of the second child using the node's own operator", floor=3)
+    ev0 = fx.fn1("Opm::Action::ASTNode::eval")
+    disp = [n for n in stmt_list(ev0["body"]) if n["k"] == "If" and any(x["k"] == "MCall" and x.get("m") == "evalLogicalOperation" for x in walk(n["then"]))]
+    rets0 = [n for n in stmt_list(ev0["body"]) if n["k"] == "Return" and n.get("e") is not None]
+    okd = False
+    if len(disp) == 1:
+        c = strip(disp[0]["cond"])
+        toks = sorted(x["n"] for x in walk(c) if x["k"] == "Ref" and x.get("d") == "Enum")
+        okd = c.get("k") == "Bin" and c.get("op") == "||" and toks == ["op_and", "op_or"] and all(strip(y).get("k") == "Bin" and strip(y).get("op") == "==" for y in c["c"]) \
+            and any(x["k"] == "MCall" and x.get("m") == "evalComparison" for r_ in rets0 for x in walk(r_["e"]))
+    chk.instance(r_evl, "dispatch", sample=dict(condition=show(disp[0]["cond"])[:120] if disp else None, ok=okd))
+    if not okd:
+        chk.violation(r_evl, "dispatch", "ASTNode::eval no longer sends exactly the nodes of type op_or or op_and to evalLogicalOperation and the rest to evalComparison (%s): AND/OR nodes are compared as if they were comparisons, or comparisons folded as if they had operands" % (show(disp[0]["cond"])[:120] if disp else "no dispatch found"), ev0["file"], ev0["l"])
+    ev = fx.fn1("Opm::Action::ASTNode::evalLogicalOperation")
+    loops_ = [n for n in walk(ev["body"]) if n["k"] == "ForRange"]
+    lp = loops_[0] if len(loops_) == 1 else None
+    folds = []
+    if lp is not None:
+        lvn = lp["var"]["n"]
+        for st in stmt_list(lp["body"]):
+            cal = strip(st.get("callee") or {}) if st["k"] in ("MCall", "Call") else {}
+            if cal.get("k") == "Bin" and cal.get("op") in (".*", "->*"):
+                obj, ptr = strip(cal["c"][0]).get("n"), strip(cal["c"][1]).get("n")
+                arg = st["a"][0] if st.get("a") else None
+                inner = strip(arg) if arg is not None else {}
+                child_eval = inner.get("k") == "MCall" and inner.get("m") == "eval" and strip(inner.get("obj") or {}).get("n") == lvn
+                folds.append((obj, ptr, child_eval))
+    rets1 = [show(strip(r_["e"])) for r_ in walk(ev["body"]) if r_["k"] == "Return" and r_.get("e") is not None]
+    okf = len(folds) == 1 and folds[0] == ("result", "setOp", True) and rets1 == ["result"] and lp is not None and len(stmt_list(lp["body"])) == 1
+    chk.instance(r_evl, "fold", sample=dict(fold=folds, returns=rets1))
+    if not okf:
+        chk.violation(r_evl, "fold", "evalLogicalOperation must, for every child, apply the selected set operation to child.eval(context) on the running result and return that result (found %s, returns %s): children would be skipped or evaluated without effect" % (folds, rets1), ev["file"], lp["l"] if lp is not None else ev["l"])
+    rc_ = [strip(r_["e"]) for r_ in stmt_list(ec["body"]) if r_["k"] == "Return" and r_.get("e") is not None]
+    okc = False
+    txt = None
+    if len(rc_) == 1:
+        txt = show(rc_[0])
+        m_c = re.fullmatch(r"this\.children(?:\.front\(\)|\[0\])\.nodeValue\(context\)\.eval_cmp\(this\.type, (\w+)\)", txt)
+        if m_c:
+            v2 = m_c.group(1)
+            asg2 = [show(decast(x["c"][1] if x["k"] == "Bin" else x["a"][1])) for x in walk(ec["body"]) if ((x["k"] == "Bin" and x.get("asg")) or (x["k"] == "OpCall" and x.get("op") == "=")) and show(strip((x.get("c") or x.get("a"))[0])) == v2]
+            plain = [t for t in asg2 if "?" not in t]
+            okc = plain == ["this.children[1].nodeValue(context)"] and all("this.children[1]" in t or "rhs" in t for t in asg2)
+            rhs_decl = [show(v.get("init")) for n in walk(ec["body"]) if n["k"] == "Decl" for v in n["vars"] if v["n"] == "rhs"]
+            okc = okc and rhs_decl in ([], ["this.children[1]"])
+    chk.instance(r_evl, "comparison", sample=dict(returns=txt, ok=okc))
+    if not okc:
+        chk.violation(r_evl, "comparison", "evalComparison must return children.front().nodeValue(context).eval_cmp(this->type, <value of children[1]>); found %s: the comparison uses another operand or operator than the condition names" % txt, ec["file"], ec["l"])
+
     # ---- C18.month: numeric month indices
     r_mo = chk.rule("C18.month", "a MNTH comparison with a numeric right-hand side compares with the NEAREST integer month (the documented rule: MNTH = 10.8 holds in November): the number goes through a round-to-nearest function, not through a truncating conversion", floor=1)
-    ec = fx.fn1("Opm::Action::ASTNode::evalComparison")
     month_ifs = [n for n in walk(ec["body"]) if n["k"] == "If" and isinstance(n.get("cond"), dict) and any(x.get("k") == "Ref" and x.get("n") == "time_month" for x in walk(n["cond"]))]
     if len(month_ifs) != 1:
         raise core.AnalysisBroken("evalComparison: the MNTH special case was not found")
